@@ -132,6 +132,26 @@ impl<'a, 'tcx> BodyCx<'a, 'tcx> {
             ty::FnDef(d, a) => {
                 o.push(("fn", J::s(dp(tcx, *d))));
                 o.push(("fn_full", J::s(dp_args(tcx, *d, a))));
+                if let DefKind::Ctor(of, _) = tcx.def_kind(*d) {
+                    let vdid = tcx.parent(*d);
+                    let adt_did = match of {
+                        rustc_hir::def::CtorOf::Variant => tcx.parent(vdid),
+                        rustc_hir::def::CtorOf::Struct => vdid,
+                    };
+                    let adt = tcx.adt_def(adt_did);
+                    let v = match of {
+                        rustc_hir::def::CtorOf::Variant => adt.variant_with_id(vdid),
+                        rustc_hir::def::CtorOf::Struct => adt.non_enum_variant(),
+                    };
+                    o.push((
+                        "ctor",
+                        J::obj(vec![
+                            ("adt", J::s(dp(tcx, adt_did))),
+                            ("variant", J::s(v.name.to_string())),
+                            ("fields", J::Arr(v.fields.iter().map(|f| J::s(f.name.to_string())).collect())),
+                        ]),
+                    ));
+                }
                 return J::obj(vec![("const", J::obj(o))]);
             }
             _ => {}
